@@ -98,10 +98,13 @@ def draw_src(draw, text: str, depth: int, budget):
     if draw(_pct) < 12 and depth < 3:
         # a transformed source: choose the transformer first, the source text stays close to the model
         tr = draw_tr(draw, expected, depth + 2, budget, simple_only=True)
-    form = _pick(draw, [('str', 50), ('here', 20), ('file', 30)])
+    form = _pick(draw, [('str', 50), ('here', 20), ('file', 30), ('prog', 7)])
     if form == 'here' and not (expected == '' or expected.endswith('\n')):
         form = 'str'
-    return {'text': expected, 'form': form, 'tr': tr}
+    ret = {'text': expected, 'form': form, 'tr': tr}
+    if form == 'prog':
+        ret['shell'] = draw(_bool)
+    return ret
 
 
 # ---- TEXT-MATCHER ----------------------------------------------------------------------------------------------
@@ -109,12 +112,14 @@ def draw_tm(draw, text: str, depth: int, budget, line_model: bool = False):
     """text: the text the matcher will be applied to (a hint only).  budget: [remaining nodes]."""
     deep = depth >= 3 or budget[0] <= 0
     boost = 2 if depth == 0 else 1  # fewer single-primitive expressions at the top
+    # (Hypothesis draws the ends of an integer range more often than the rest: the first and the last entry with a
+    # non-zero weight should be kinds that are worth it)
     kind = _pick(draw, [
-        ('is-empty', 5), ('equals', 22), ('matches', 20), ('num-lines', 6 if line_model else 12),
+        ('equals', 22), ('is-empty', 5), ('num-lines', 6 if line_model else 12),
         ('every', 0 if depth >= 4 else 2 if line_model else 9),
         ('any', 0 if depth >= 4 else 2 if line_model else 9), ('const', 2),
         ('on', 0 if deep else 22 * boost), ('not', 0 if deep else 9 * boost), ('and', 0 if deep else 10 * boost),
-        ('or', 0 if deep else 10 * boost),
+        ('or', 0 if deep else 10 * boost), ('matches', 20),
     ])
     budget[0] -= 1
     if kind == 'is-empty':
@@ -173,8 +178,8 @@ def draw_ranges(draw, n_lines: int):
 def draw_tr(draw, text: str, depth: int, budget, simple_only: bool = False):
     deep = depth >= 3 or budget[0] <= 0 or simple_only
     kind = _pick(draw, [('replace', 30), ('strip', 16), ('char-case', 9), ('filter', 0 if simple_only else 14),
-                        ('filter-nums', 7), ('grep', 10), ('identity', 3),
-                        ('seq', 0 if deep else 45 if depth == 0 else 16)])
+                        ('filter-nums', 7), ('identity', 3),
+                        ('seq', 0 if deep else 45 if depth == 0 else 16), ('grep', 10)])
     budget[0] -= 1
     if kind == 'replace':
         rx = c05_regex.draw_regex(draw, text)
@@ -336,6 +341,16 @@ class Renderer:
             name = '%s%d.txt' % (self._file_prefix, len(self.files) + 1)
             self.files[name] = text
             toks = ['-contents-of', '-rel-home', name]
+        elif form == 'prog':
+            # (-stdout-from|-stderr-from) PROGRAM: a program that prints the file.  The program's arguments run to
+            # END-OF-LINE; "-transformed-by T" on the next line is the program's own transformation of its output,
+            # which "is applied to stdout"; the closing parenthesis goes on a line of its own
+            name = '%s%d.txt' % (self._file_prefix, len(self.files) + 1)
+            self.files[name] = text
+            toks = ['-stdout-from', '$' if s.get('shell') else '%', 'cat', '{HOME}/' + name, NL]
+            if s.get('tr') is not None:
+                toks += ['-transformed-by'] + self.tr(s['tr'], True) + [NL]
+            return ['('] + toks + [')']
         elif form == 'here':
             toks = [Here(text)]
         else:
